@@ -170,8 +170,11 @@ def evaluate(ctx: Ctx, cases, oracle_only=False):
             req.append(line(Atom(PROP), Atom('cms'), c['depth'], c['width'], ops, r['locs']))
             req.append(line(Atom(PROP), Atom('cmsspec'), len(c['items']), ops, r['M'], r['q']))
         else:
+            # entries for values that were never fed cannot be sent to the spec op (its keys are the fed ints): judged here
+            r['phantom'] = [kv for kv in r['res'] if kv[0] not in c['vals'] or isinstance(kv[0], str)]
+            sane = [kv for kv in r['res'] if kv not in r['phantom']]
             req.append(line(Atom(PROP), Atom('ctr'), c['bound'], c['vals']))
-            req.append(line(Atom(PROP), Atom('ctrspec'), c['bound'], c['vals'], r['res']))
+            req.append(line(Atom(PROP), Atom('ctrspec'), c['bound'], c['vals'], sane))
     rep = run_driver(req)
     for k, (c, r) in enumerate(zip(cases, impl)):
         model, spec = rep[2 * k], rep[2 * k + 1]
@@ -207,7 +210,10 @@ def evaluate(ctx: Ctx, cases, oracle_only=False):
                 ctx.traces += 1
                 if [list(x) for x in model] != r['res']:
                     ctx.corr_fail('ctr', f'bound={c["bound"]} vals={c["vals"]}: impl {r["res"]} != model {model}', c)
-            if spec != Atom('true'):
+            if r.get('phantom'):
+                ctx.oracle_fail('ctr-bounds', f'bound={c["bound"]} vals={c["vals"]} (counts of never-fed values read before the adds at positions {c.get("peeks", [])}): '
+                                f'the counter tracks {r["phantom"]}, values that were never fed ({len(r["res"])} tracked entries)', c)
+            elif spec != Atom('true'):
                 ctx.oracle_fail('ctr-bounds', f'bound={c["bound"]} vals={c["vals"]} (counts of never-fed values read before the adds at positions {c.get("peeks", [])}): counter {r["res"]} over-counts / exceeds bound / inexact below bound', c)
 
 
